@@ -41,6 +41,51 @@ pub const FIXED: &[(&str, &str)] = &[
     ("empty", ""),
 ];
 
+/// every spelling of a numeric literal the grammar might meet, in three syntactic contexts
+pub fn literal_texts() -> Vec<(String, String)> {
+    let f32s = "f".repeat(32);
+    let f33s = "f".repeat(33);
+    let f40s = "F".repeat(40);
+    let ones127 = "1".repeat(127);
+    let ones128 = "1".repeat(128);
+    let ones200 = "1".repeat(200);
+    let dec45 = "9".repeat(45);
+    let lits: Vec<String> = vec![
+        "0", "7", "007", "1_000", "1__0", "1_", "9223372036854775807", "9223372036854775808", "170141183460469231731687303715884105727",
+        "170141183460469231731687303715884105728", &dec45, "0x0", "0xff", "0xFF", "0Xff", "0XFF", "0x_", "0x_f", "0xf_", "0x__", "0xg", "0x",
+        &format!("0x{f32s}"), &format!("0x{f33s}"), &format!("0x{f40s}"), "0b0", "0b1_0", "0B1", "0B101", "0b_", "0b__1", "0b2", "0b",
+        &format!("0b{ones127}"), &format!("0b{ones128}"), &format!("0b{ones200}"), "1.0", "1.", ".5", "1.5e3", "1E5", "1e5", "1e-3", "1e+3", "1e999", "1e-999",
+        "1_0.0_1", "1.e5", "0.0", "00.1", "1e", "1e_", "1.0.0", "0o17", "1f", "٣", "１２",
+    ]
+    .into_iter()
+    .map(|s| s.to_string())
+    .collect();
+    let mut out = vec![];
+    for l in lits {
+        out.push((format!("literal:let:{l}"), format!("let v_x = {l};\nfn main()->bool{{ true }}")));
+        out.push((format!("literal:arg:{l}"), format!("fn main()->bool{{ display({l}) == {l} }}")));
+        out.push((format!("literal:fstring:{l}"), format!("fn main()->bool{{ f\"{{{l}}}\".len() > 0 }}")));
+    }
+    out
+}
+
+/// semantic errors whose reported span is long and full of multi-byte characters, with every
+/// alignment of the characters against byte offsets
+pub fn unicode_span_texts() -> Vec<(String, String)> {
+    let runs = [("czech", "ěščřžýáíé"), ("japanese", "日本語のテキスト"), ("emoji", "😀🎉🚀👍"), ("mixed", "aé日😀")];
+    let mut out = vec![];
+    for (name, unit) in runs {
+        for pad in 0..4 {
+            let body: String = std::iter::repeat(unit).take(30).collect();
+            let padding = "a".repeat(pad);
+            out.push((format!("unicode-span:{name}:pad{pad}:str-plus-int"), format!("let v_s = \"{padding}{body}\" + 5;\nfn main()->bool{{ true }}")));
+            out.push((format!("unicode-span:{name}:pad{pad}:bad-member"), format!("struct V_A(v_k: int)\nlet v_s = V_A(1)::v_{padding}missing + \"{body}\".len();\nfn main()->bool{{ true }}")));
+            out.push((format!("unicode-span:{name}:pad{pad}:wrong-arg"), format!("fn v_f(v_x: int)->int{{ v_x }}\nlet v_s = v_f(\"{padding}{body}\");\nfn main()->bool{{ true }}")));
+        }
+    }
+    out
+}
+
 pub fn book_examples() -> Vec<(String, String)> {
     let root = format!("{}/book/src", corpus::repo_root());
     let mut files = vec![];
